@@ -369,4 +369,12 @@ def main(argv):
     except Machinery as e:
         print("MACHINERY-ERROR property=%s: %s" % (a.prop, e), flush=True)
         rc = 2
+    except SystemExit:
+        raise
+    except BaseException:
+        # a bug of the checking machinery is never a verdict
+        import traceback
+        traceback.print_exc()
+        print("MACHINERY-ERROR property=%s: uncaught exception in the check" % a.prop, flush=True)
+        rc = 2
     sys.exit(rc)
